@@ -155,6 +155,11 @@ mod kernel {
         /*-104.*/
         {
             ZERO
+        } else if d > P32E2::new(0x_6a80_0000)
+        /*104.*/
+        {
+            // e^104 is far beyond maxpos, and for huge d the quotient q is no longer an exact integer
+            P32E2::MAX
         } else {
             ldexp2(quire.to_posit(), q) //ldexpkf
         }
